@@ -112,14 +112,14 @@ func genC26(t *rapid.T) c26Case {
 	regime := rapid.SampledFrom([]string{"mixed", "mixed", "cluster", "dust-withdrawal", "fee-limit", "big-and-small"}).Draw(t, "regime")
 	// Size bounds: a first pass that finds nothing visits min(2^n, 10^6) subsets and classifies every
 	// selected script again at each node (~1 us each), so n is kept small; only the thorough tier
-	// occasionally (1 in 5000 cases) uses sets large enough to exhaust the 10^6-try budget (several seconds per search).
+	// occasionally (about 1 in 4000 cases) uses sets large enough to exhaust the 10^6-try budget (several seconds per search).
 	maxN := ev.Scale(10, 12)
-	if rapid.IntRange(0, 9).Draw(t, "larger") == 0 {
+	if rapid.Uint64().Draw(t, "larger")%10 == 7 { // (rapid favours small values, so rarity is taken from a residue)
 		maxN = ev.Scale(14, 15)
 	}
 	kindMode := rapid.SampledFrom([]string{"any", "any", "witness-only", "big-p2sh"}).Draw(t, "kindmode")
 	minN := 0
-	if ev.Thorough() && rapid.IntRange(0, 4999).Draw(t, "huge") == 0 {
+	if ev.Thorough() && rapid.Uint64().Draw(t, "huge")%4000 == 3321 {
 		minN, maxN, kindMode = 24, 32, "witness-only"
 	}
 	nU := rapid.IntRange(minN, maxN).Draw(t, "nutxo")
